@@ -60,7 +60,13 @@ func cmdSelftest(args []string) int {
 		expect := true
 		if mb, err := os.ReadFile(filepath.Join(filepath.Dir(f), "meta.json")); err == nil {
 			var meta struct {
-				Detected *bool `json:"detected"`
+				Detected *bool  `json:"detected"`
+				Obsolete string `json:"obsolete"`
+			}
+			if json.Unmarshal(mb, &meta) == nil && meta.Obsolete != "" {
+				// a later fix of the repository removed the code the change
+				// relied on: it no longer breaks the property
+				continue
 			}
 			if json.Unmarshal(mb, &meta) == nil && meta.Detected != nil && !*meta.Detected {
 				expect = false
